@@ -12,7 +12,7 @@ HOOK_COMMITS = [l.split()[0] for l in HOOK_COMMITS if " verif hook:" in l]
 
 P = {
  "C01": dict(level="exploration", tech="exhaustive small-scope enumeration + proptest model-based round trip (ordered-map model)",
-   text="Every builder front end x cache geometry x key/value shape explored is built, opened and enumerated through every streaming API and compared as a sequence with an ordered-map model; all 2^15 subsets of the 15-key universe over {a,b}^<=3 x 6 value patterns x 4 geometries and all value assignments over {0,1,256} on the 7-key universe are enumerated completely, the rest is sampled by proptest (fan-out 0..256, u64 boundary values, long keys, 10^5..2*10^6-key recipes).",
+   text="Every builder front end x cache geometry x key/value shape explored is built, opened and enumerated through every streaming API and compared as a sequence with an ordered-map model; all 2^15 subsets of the 15-key universe over {a,b}^<=3 x 6 value patterns x 4 geometries and all value assignments over {0,1,256} on the 7-key universe are enumerated completely, the rest is sampled by proptest (fan-out 0..256, u64 boundary values, long keys, 10^5..2*10^6-key recipes). Results are also reached through Map::from(Fst), Set::from(Fst), AsRef<Fst>, &Map/&Set IntoStreamer, every collector, into_map/into_set/into_fst/finish on &mut Vec, two interleaved streams, and from_iter/extend_iter fed by iterators with exact, useless and missing size hints.",
    note="Trusted: the model (sorted Vec/BTreeMap), the harness build helper; sampled beyond the exhaustive scopes; keys > 70 kB and > 2e6 keys not explored.", ref="5/C01"),
  "C02": dict(level="exploration", tech="proptest + exhaustive probes against an ordered-map model (present and absent keys)",
    text="For each built FST every key, every proper prefix, one-byte extensions, single-byte substitutions at every position (all 255 in the small scopes, all 256 bytes at forced fan-out nodes) and random strings are probed through Map::get/contains_key, Set::contains and raw get/contains_key and compared with model membership; the same on files of 64 KiB..2 MiB and on one file beyond 16 MiB (address deltas of 2, 3 and 4 bytes on the lookup path).",
@@ -21,10 +21,10 @@ P = {
    text="Histories of 0..4 bound-setting calls (ge/gt/le/lt, last of each kind wins) with bound keys constructed from keys, prefixes, +/- one byte, divergent and empty strings are run through Map/Set/Fst::range and compared as sequences with the model filter; subsets of the 15-key universe x all (kind,key,kind,key) combinations over a 341-string bound universe are enumerated; sampled windows with present/absent/over-long bound keys on files beyond 64 KiB.",
    note="Trusted: the model filter; bound keys longer than longest key + 2 only sampled.", ref="5/C03"),
  "C04": dict(level="exploration", tech="proptest + enumeration of small DFAs with every sound hint assignment; independent fold of the automaton over model keys; metamorphic hint-weakening",
-   text="Generated contract-abiding automata (all DFAs with <= 2 states over 2 byte classes with every sound can_match assignment, random DFAs up to 8 states with randomly weakened hints, shipped automata and compositions, Levenshtein, regex-automata DFAs) are searched with bounds and compared with an independent per-key fold through the public trait, including the reported state for search_with_state, and with the same automaton with all hints weakened.",
+   text="Generated contract-abiding automata (all DFAs with <= 2 states over 2 byte classes with every sound can_match assignment, random DFAs up to 8 states with randomly weakened hints, shipped automata and compositions, Levenshtein, regex-automata DFAs) are searched with bounds and compared with an independent per-key fold through the public trait, including the reported state for search_with_state (raw, Map and Set builders, each with its own bound setters), and with the same automaton with all hints weakened.",
    note="Trusted: the per-key fold and reachability computation in the harness; automata with unbounded state spaces not generated.", ref="5/C04"),
  "C05": dict(level="exploration", tech="exhaustive k<=3 tuples over a 4-key universe + proptest k<=6 against set-theoretic definitions on models",
-   text="All tuples (k<=3) of subsets of {eps,a,ab,b} with tie/differing values, and random tuples up to k=6 of streams of mixed kinds (FST, range, search, user streamer) are run through union/intersection/difference/symmetric_difference of raw, map and set OpBuilders and compared with the set-theoretic definition (keys as a sequence, IndexedValue lists as sets) and is_disjoint/is_subset/is_superset with BTreeSet relations; a further family uses 7..20 streams, keys longer than 64 bytes with long shared prefixes and values at 2^32 / u64::MAX.",
+   text="All tuples (k<=3) of subsets of {eps,a,ab,b} with tie/differing values, and random tuples up to k=6 of streams of mixed kinds (FST, range, search, user streamer) are run through union/intersection/difference/symmetric_difference of raw, map and set OpBuilders and compared with the set-theoretic definition (keys as a sequence, IndexedValue lists as sets) and is_disjoint/is_subset/is_superset with BTreeSet relations; further families use 7..70 and 250..260 streams, keys longer than 64 bytes with long shared prefixes and values at 2^32 / u64::MAX; Fst::op(), Map::op() and Set::op() run all four operations with any first stream (incl. an empty one, and alone).",
    note="Trusted: BTreeMap/BTreeSet definitions; k = 0 for difference is outside the quantifier.", ref="5/C05"),
  "C06": dict(level="exploration", tech="exhaustive call histories <= 5 over a 4-key universe + proptest histories against a reference interpreter",
    text="Every sequence of <= 5 inserts over {eps,a,ab,b} for map/set/raw builders, random histories up to 200 calls with 0-50% invalid calls, and bulk front ends with the first bad item at every position are interpreted step by step against a reference interpreter: result variant and payload of every call, bytes_written unchanged by rejected calls, final content and len.",
@@ -39,10 +39,10 @@ P = {
    text="Every generated build (C01's space incl. files needing 2-3 byte deltas and one file beyond 16 MiB with 4-byte deltas) is parsed by an independent decoder that checks header, footer, node layouts, in-bounds earlier targets, exact tiling of the body by node extents, index tables, and decodes the map without the crate's reader, comparing with the model.",
    note="Trusted: the harness decoder (cross-validated: must decode every golden file and every pinned build) and the frozen 256-entry input-rank table.", ref="5/C09, App. A"),
  "C10": dict(level="exploration", tech="independent reference encoder (v1/v2/v3) + golden files + header sweep; query suite against the model",
-   text="Maps from the shared space are encoded by an independent encoder in versions 1, 2 and 3 under several writer policies, opened through Vec, &[u8], Box, Arc, Cow and Mmap containers and queried (stream, get, range, search, set operations, len, verify) against the model; a sweep over version values x lengths 0..40 checks the documented error for each input; old-version files of 70 KiB..600 KiB get stream, sampled lookups and sampled ranges.",
+   text="Maps from the shared space are encoded by an independent encoder in versions 1, 2 and 3 under several writer policies, opened through Vec, &[u8], Box, Arc, Cow and Mmap containers and queried (stream, get, range, search, set operations, len, verify) against the model; a sweep over version values x lengths 0..40 checks the documented error for each input; old-version files of 70 KiB..600 KiB (incl. 40/100/200-way nodes) get stream, sampled lookups, sampled ranges and - where values increase with the keys - get_key/get_key_into.",
    note="Trusted: the reference encoder (v1/v2 differ from its cross-validated v3 mode only by index/checksum); no historical crate release is available offline.", ref="5/C10, App. B"),
  "C11": dict(level="fault_enumeration", tech="exhaustive single-fault injection at every write call and the flush x 7 failure kinds, under catch_unwind",
-   text="For each explored key sequence the number of write calls W is measured, then every call index 0..W and the final flush is made the single failing call for each failure kind (5 ErrorKinds, explicit WriteZero, Ok(0)); the faulted builder call must return Err(Io) of that kind, earlier calls Ok, no panic, and success only if the sink holds the reference bytes and was flushed after the last write (the fault-free run of every sequence exercises that clause).",
+   text="For each explored key sequence and each of five routes (raw builder + finish, MapBuilder/SetBuilder + finish, the same + into_inner, extend_iter + into_inner, extend_stream + finish) the number of write calls W is measured, then every call index 0..W and the final flush is made the single failing call for each failure kind (5 ErrorKinds, explicit WriteZero, Ok(0)); the faulted builder call must return Err(Io) of that kind, earlier calls Ok, no panic, and success only if the sink holds the reference bytes and was flushed after the last write (the fault-free run of every sequence exercises that clause).",
    note="Trusted: the fault-injecting sink; behaviour of later calls on a builder that already failed is not part of the statement.", ref="5/C11"),
  "C12": dict(level="exploration", tech="proptest against an independent minimal-DFA construction (hash-consed trie) under an observed no-eviction premise; corpus sharing ratio",
    text="For builds in which the eviction hook counted zero, sets must be isomorphic to the independently computed minimal acyclic DFA and maps must contain no two nodes with the same signature; for every build emitted nodes <= trie nodes; on the shipped corpora realised sharing must exceed one half of the achievable; extra shapes: cross products (equivalent wide nodes), shared suffixes of 64..300 bytes, > 1 MiB files with few distinct nodes, large sets/maps under a roomy geometry.",
@@ -51,7 +51,7 @@ P = {
    text="Key sequences with bounded fan-out and key length and unboundedly many distinct nodes are streamed to a discarding sink in a child process with a counting allocator; live heap at N/2 and peak up to the end of finish() must agree within 10% + 128 KiB (10% + 8 KiB for caches of <= 256 cells, where slow leaks show) for 21 configurations: fan-outs 2..40, key lengths 12..250, prefix-pair keys, increasing/hashed/decreasing values, three geometries, and discarding sinks that take at most 1/3/4/8 bytes per call with every 7th call interrupted (what the sink has not taken must not pile up).",
    note="Asymptotic claim checked at finitely many N (4e5 quick, up to 1e7 thorough); growth below 5% per doubling would pass.", ref="5/C13"),
  "C14": dict(level="exploration", tech="metamorphic heap measurement of traversals with a counting allocator (small N vs large N); zero-allocation assertion for open/get",
-   text="Peak extra heap during stream/range/search traversals and k-way set operations is measured at two FST sizes in probe children and must not grow with N; operations: stream, range, search with Subsequence / StartsWith / DFAs with and without dead states / Levenshtein / regex DFA, search_with_state, the four set operations for k in {2,3,8} and a union of range and search streams; Fst::new on borrowed/mapped bytes, get, contains_key and len (also on an FST with fan-outs 256/24/12) must perform zero allocations.",
+   text="Peak extra heap during stream/range/search traversals and k-way set operations is measured at two FST sizes in probe children and must not grow with N; operations: stream, range, search with Subsequence / StartsWith / DFAs with and without dead states / Levenshtein / regex DFA, search_with_state, the four set operations for k in {2,3,8} and a union of range and search streams; Fst::new / Map::new / Set::new on borrowed, Cow and mapped bytes, get, contains_key, contains and len (also on an FST with fan-outs 256/24/12) must perform zero allocations; Map/Set streams (stream, keys, values, range, search, search_with_state), their OpBuilders and the predicates are measured like the raw ones.",
    note="Finitely many N; generous multiplicative + additive tolerance calibrated on the pinned tree.", ref="5/C14"),
  "C15": dict(level="exploration", tech="differential byte-equality across construction entry points, threads and child processes",
    text="The same (type, sequence) is built through every entry point incl. extend_stream of unions of part-sets, memory vs Vec vs scripted sinks, with different buffer capacities, with the builder inspected between inserts, from iterators without size hint, on fresh threads, repeated in-process, in 16 threads and in child processes (one of them refused every allocation >= 256 KiB: it may die but not produce other bytes); one sequence exceeds 10^5 keys; all outputs must be byte-identical.",
@@ -60,13 +60,13 @@ P = {
    text="Maps with strictly increasing values (all subsets of the 15-key universe x gap patterns; random shapes) are queried with every stored value, +/-1, 0, u64::MAX and random values; get_key/get_key_into (on a junk-prefilled buffer) must equal the model inverse; maps of up to 4000 keys with 256-way nodes and values above 2^63 included.",
    note="Non-monotone maps never generated (documented unspecified).", ref="5/C16"),
  "C17": dict(level="exploration", tech="exhaustive (q,d,k) over an 8-character multi-byte alphabet against a DP edit distance; proptest beyond",
-   text="All queries and keys of <= 3 characters over {a,e-acute,e-circumflex,2 snowman-block symbols,2 emoji,musical symbol} x d in 0..2 are decided by the automaton and by an O(|q||k|) DP over chars; Set::search results, dead-state soundness and state limits (via the hook) are checked too, as are all |q|,|k| <= 2 over 16 code points at the UTF-8 encoding boundaries, queries of up to 26 characters with d <= 4, and agreement of new() with the default limit of 10 000 states.",
+   text="All queries and keys of <= 3 characters over {a,e-acute,e-circumflex,2 snowman-block symbols,2 emoji,musical symbol} x d in 0..2 are decided by the automaton and by an O(|q||k|) DP over chars; Set::search results, dead-state soundness and state limits (via the hook) are checked too, as are all |q|,|k| <= 2 over 16 code points at the UTF-8 encoding boundaries, queries of up to 26 characters with d <= 4, distances 3..9, 100, 253..258, 300, 511, 512, 1000 with queries of <= 3 characters, agreement of new() with the default limit of 10 000 states, and sets that also hold byte strings that are not UTF-8 (never returned: they have no edit distance in scalar values).",
    note="Trusted: the DP edit distance; |k| <= 3 (4 thorough) exhaustive, random beyond.", ref="5/C17"),
  "C18": dict(level="exploration", tech="enumeration/proptest of automaton expression trees against an explicit reference DFA compiler (products, latch, complement) up to the pumping bound",
    text="Expression trees to depth 3 over Str, Subsequence, AlwaysMatch and every small component DFA with every sound hint assignment are built with the crate's combinators and compared state-by-state with a reference DFA: acceptance of every string up to |Q|+1 over class representatives, can_match=false only if no accepting continuation, will_always_match=true only if all continuations accept; random trees to depth 4, patterns of 256..300 bytes, and the bytes 0x00/0x7f/0x80/0xff always part of the alphabet.",
    note="Trusted: the reference compiler in the harness.", ref="5/C18"),
  "C19": dict(level="exploration", tech="differential CLI runs over batch/fd-limit/thread/schedule-seed configurations against a model fold; byte-equality across configurations",
-   text="The fst binary (hooks on: seeded delays at channel points, batch trace) is run on generated line/CSV multisets over batch sizes, fd limits, thread counts, merge modes and schedule seeds; output must exist, verify, equal the model fold and be byte-identical across configurations, and equal a sorted build when keys are unique; inputs include CRLF files, files without final newline, values beyond 2^32 and up to ~180 rows (hundreds of batches, several generations); a run that does not finish within 45 seconds is reported as a hang.",
+   text="The fst binary (hooks on: seeded delays at channel points, batch trace) is run on generated line/CSV multisets over batch sizes, fd limits, thread counts, merge modes and schedule seeds; output must exist, verify, equal the model fold and be byte-identical across configurations, and equal a sorted build when keys are unique; inputs include CRLF files, files without final newline, empty files anywhere in the list, one input on stdin, keys with NUL / control / CR bytes and long shared prefixes, --force over an existing longer output, values beyond 2^32 and up to ~180 rows (hundreds of batches, several generations); a run that does not finish within 45 seconds is reported as a hang.",
    note="Interleavings are perturbed, not enumerated; a bug needing one specific interleaving may be missed.", ref="5/C19"),
  "C20": dict(level="exploration", tech="exhaustive header/footer grid + proptest random/truncated/mutated inputs under catch_unwind + libFuzzer/ASan (thorough); auxiliary -F unsafe_code lint",
    text="Every length 0..64 x boundary version/root/len values x filler, random byte strings, every truncation and single-byte mutation of valid FSTs are opened through Fst/Map/Set::new and, when they open, the metadata accessors and verify() are called, all under catch_unwind; inputs of 64 KiB..16 MiB with plausible headers/footers included; the library is additionally compiled with -F unsafe_code as the property prescribes.",
